@@ -329,7 +329,20 @@ func (w *World) registerAllFields() {
 				if sty, ok := t.Underlying().(*types.Struct); ok && (path == "" || !isPointer(t)) {
 					if path != "" {
 						if _, named := t.(*types.Named); named && t.(*types.Named).Obj().Pkg() != nil && t.(*types.Named).Obj().Pkg().Path() != p.PkgPath && !strings.HasPrefix(t.(*types.Named).Obj().Pkg().Path(), repoModule) {
-							return // struct values of other packages (mutexes) are opaque
+							// struct values of other packages (mutexes) are opaque, except for the ghost fields their trusted model
+							// declares: an embedded sync.Mutex at path P of struct n gets the ghost leaf n.P.<ghost>
+							prefix := w.StructKey(t) + "."
+							for _, gk := range append([]string{}, w.FieldOrder...) {
+								g := w.Fields[gk]
+								if g != nil && g.Ghost && strings.HasPrefix(gk, prefix) && !strings.Contains(gk[len(prefix):], ".") {
+									key := w.StructKey(n) + "." + path + "." + gk[len(prefix):]
+									if _, dup := w.Fields[key]; !dup {
+										w.Fields[key] = &FieldInfo{Key: key, Sort: g.Sort, Ty: g.Ty, Ghost: true}
+										w.FieldOrder = append(w.FieldOrder, key)
+									}
+								}
+							}
+							return
 						}
 					}
 					for i := 0; i < sty.NumFields(); i++ {
